@@ -53,6 +53,10 @@ func NewImportNames(specs []*ast.ImportSpec) ImportNames {
 // in the conversion setup file.
 func (i ImportNames) LookupName(pkgPath string) (name string, ok bool) {
 	name, ok = i[pkgPath]
+	if name == "." {
+		// The identifiers of a dot-imported package are used without a qualifier.
+		name = ""
+	}
 	return
 }
 
@@ -81,7 +85,7 @@ func (i ImportNames) TypeName(t types.Type) string {
 			// Universe types such as "error" do not belong to any package.
 			return typ.Obj().Name()
 		}
-		if pkgName, ok := i[typ.Obj().Pkg().Path()]; ok {
+		if pkgName, ok := i.LookupName(typ.Obj().Pkg().Path()); ok && pkgName != "" {
 			return fmt.Sprintf("%v.%v", pkgName, typ.Obj().Name())
 		}
 		return typ.Obj().Name()
